@@ -70,6 +70,30 @@ CHECKS += [
              "maximum) - supporting search, not proof, until their models land. The 'accepted only if degree <= d' direction is the AGM statement of "
              "C03 for the shifted commitment and is not proved in general (DESIGN.md section 6)."},
 ]
+CHECKS += [
+    {"property_id": "C06",
+     "text": "Coq theorems: (homomorphic path, Marlin::open_combinations/check_combinations) the combined polynomial, randomness and commitment of any "
+             "combination of polynomials without degree bounds form an honest commitment triple of exactly the stated combination (value + constant "
+             "terms = combination value), a single degree-bounded term with coefficient one keeps its bound and shifted part, a degree-bounded "
+             "polynomial mixed with other terms is refused with EquationHasDegreeBounds by prover and verifier, constant terms move into the claimed "
+             "values of that combination only; (trait-default path) the value recomputed from the transmitted evaluations is the combination value, "
+             "a differing claim is rejected whatever the proof, and otherwise the decision is the inner batch verification. Correspondence: extracted "
+             "Marlin LC model vs library on random combinations (zero/negative coefficients, repeated labels, constant terms, several combinations "
+             "per point, shared point values) and on perturbed claims / coefficients / constants (decisions compared).",
+     "note": COMMON_NOTE + " Completeness of the combination opening itself reduces, by C06_combination_is_honest_commitment, to completeness of the "
+             "batch opening of honest commitments (C01); the grouping step of batch_open/batch_check is modelled and compared but its completeness "
+             "is not yet a theorem. Sonic, IPA, PST13 (override paths) and Hyrax, Ligero, Brakedown (default path) are exercised by the same "
+             "scenarios and judged by implementation-level oracles (supporting search)."},
+    {"property_id": "C11",
+     "text": "Coq theorems (sponge modelled as the tape of its outputs): for histories of any length of multi-polynomial openings the verifier accepts "
+             "every proof and ends on exactly the prover's tape position; one operation with degree bounds and hiding consumes the same challenges on "
+             "both sides; a proof checked under another challenge is accepted exactly when (xi'-xi)*(C-v*G)*h = 0. Correspondence: histories of 2-6 "
+             "open/batch_open/open_combinations operations on one recording sponge per side: challenge counts predicted by the model, squeeze/absorb "
+             "logs of prover and verifier compared event by event, a final squeeze on both sides compared, and checks under a perturbed sponge pre-state.",
+     "note": COMMON_NOTE + " The history theorem covers single-point openings without shifted blinding (the unconditional completeness case); batch and "
+             "combination operations in histories are covered by the correspondence (model-predicted challenge counts) and the implementation-level "
+             "lock-step oracle (all schemes)."},
+]
 _PENDING = "check not built yet in this round (model and correspondence under construction; see DESIGN.md section 7)"
 _CLAIMED = {c["property_id"] for c in CHECKS}
 NOT_APPLICABLE = [{"property_id": "C%02d" % i, "reason": _PENDING} for i in range(1, 20) if "C%02d" % i not in _CLAIMED]
